@@ -89,13 +89,6 @@ func registerIntrinsics2(e *Engine) {
 			return strings.ReplaceAll(n[0].(string), n[1].(string), n[2].(string))
 		})
 	}
-	I["strings.HasPrefix"] = func(e *Engine, fr *frame, a []Value) Value {
-		if c, ok := a[0].(*ChoiceStr); ok {
-			p := e.cs(a[1])
-			return e.liftStr(c, func(x string) Value { return strings.HasPrefix(x, p) })
-		}
-		return strings.HasPrefix(e.cs(a[0]), e.cs(a[1]))
-	}
 	I["strings.Count"] = func(e *Engine, fr *frame, a []Value) Value {
 		if r, ok := a[0].(*Rope); ok {
 			sep, ok := a[1].(string)
